@@ -38,6 +38,13 @@ def damage_list(draw, tree, min_size=1, max_size=4):
         return []
     ops = ["flip", "flip", "trunc", "remove"] if not tree["single"] else ["flip", "flip", "trunc"]
     out = []
+    if min_size <= 1 and draw(st.sampled_from([True] + [False] * 3)):
+        # focused damage: one deep truncation of the largest file (the lost tail lies beyond the first piece-sized read;
+        # with periodic content a reader that recycles its buffer sees "the same" bytes again)
+        fi = max(nonempty, key=lambda i: tree["files"][i]["size"])
+        size = tree["files"][fi]["size"]
+        lo = min(size - 1, 16384 + draw(st.integers(0, 40000)))
+        return [{"op": "trunc", "file": fi, "keep": draw(st.sampled_from([size - 1, lo, (lo + size) // 2]))}]
     n = draw(st.integers(min_size, max_size))
     for _ in range(n):
         op = draw(st.sampled_from(ops))
@@ -146,3 +153,31 @@ def shape_classes(case, meta):
         cls.append("pieces-straddle-files")
     cls.append("path-" + case["content_path"])
     return cls
+
+
+def big_piece_grid(with_damage):
+    """A few deterministic large-piece cases (piece length 2 MiB and 32 MiB: larger than any plausible read buffer).
+
+    The file sizes relate to 1 MiB / 16 MiB boundaries inside one piece; contents are constant bytes (cheap to make, non-zero)."""
+    cases = []
+    MiB = 1 << 20
+    shapes = [
+        (1 << 21, [3 * MiB, 100]), (1 << 21, [2 * MiB + MiB // 2, MiB, 5]), (1 << 21, [MiB + 7, 3 * MiB]),
+        (1 << 25, [(1 << 24) + 5]), (1 << 25, [17 * MiB, 3]),
+    ]
+    for P, sizes in shapes:
+        single = len(sizes) == 1
+        files = [{"path": [] if single else ["f%d" % i], "size": s, "mode": "const", "seed": 11 + i} for i, s in enumerate(sizes)]
+        tree = {"name": "big", "single": single, "files": files}
+        for creator in ("TorrentFile", "Assembler2", "Assembler3"):
+            if P == 1 << 25 and creator != "TorrentFile":
+                continue
+            for cp in ("root", "parent"):
+                dmg = []
+                if with_damage:
+                    dmg = [{"op": "flip", "file": 0, "off": 0, "mask": 1}]
+                cases.append({"tree": tree, "P": P, "meta": {"kind": "own", "creator": creator}, "content_path": cp, "damage": dmg})
+        cases.append({"tree": tree, "P": P, "meta": {"kind": "ref", "version": 1, "order": None, "align": False, "trailing_pad": False,
+                                                      "v2_single_length": False}, "content_path": "root",
+                      "damage": [{"op": "flip", "file": 0, "off": sizes[0] - 1, "mask": 255}] if with_damage else []})
+    return cases
